@@ -53,6 +53,14 @@ class World:
                     self.load("giving.gvn", p)
         except Exception:  # pragma: no cover
             pass
+        try:
+            spec = importlib.util.find_spec("codefind")
+            if spec and spec.submodule_search_locations:
+                p = os.path.join(list(spec.submodule_search_locations)[0], "registry.py")
+                if os.path.exists(p):
+                    self.load("codefind.registry", p)
+        except Exception:  # pragma: no cover
+            pass
         # the stdlib visitor classes are interpreted from their real source as well
         import ast as _ast
 
